@@ -2622,7 +2622,7 @@ class SQLiteDialect(default.DefaultDialect):
             PK_PATTERN = r'CONSTRAINT\s+(?:"(.+?)"|(\w+))\s+PRIMARY\s+KEY'
             result = re.search(PK_PATTERN, table_data, re.I)
             if result:
-                constraint_name = result.group(1) or result.group(2)
+                constraint_name = self._constraint_name(*result.group(1, 2))
             else:
                 constraint_name = None
 
@@ -2745,7 +2745,9 @@ class SQLiteDialect(default.DefaultDialect):
                     deferrable,
                     initially,
                 ) = match.group(1, 2, 3, 4, 5, 6, 7, 8, 9)
-                constraint_name = constraint_quoted_name or constraint_name
+                constraint_name = self._constraint_name(
+                    constraint_quoted_name, constraint_name
+                )
                 constrained_columns = list(
                     self._find_cols_in_sig(constrained_columns)
                 )
@@ -2817,6 +2819,10 @@ class SQLiteDialect(default.DefaultDialect):
         else:
             return ReflectionDefaults.foreign_keys()
 
+    def _constraint_name(self, quoted_name, unquoted_name):
+        # within a quoted name, embedded double quotes are doubled
+        return quoted_name.replace('""', '"') if quoted_name else unquoted_name
+
     def _find_cols_in_sig(self, sig):
         for match in re.finditer(r'(?:"(.+?)")|([a-z0-9_]+)', sig, re.I):
             yield match.group(1) or match.group(2)
@@ -2856,7 +2862,7 @@ class SQLiteDialect(default.DefaultDialect):
 
             for match in re.finditer(UNIQUE_PATTERN, table_data, re.I):
                 quoted_name, unquoted_name, cols = match.group(1, 2, 3)
-                name = quoted_name or unquoted_name
+                name = self._constraint_name(quoted_name, unquoted_name)
                 yield name, list(self._find_cols_in_sig(cols))
 
             # we need to match inlines as well, as we seek to differentiate
